@@ -231,7 +231,7 @@ def native(argv):
             continue
         exe = os.path.join(exe_dir, "target", "release" if flag else "debug", "vmstep")
         r = subprocess.run([exe] + argv, stdout=subprocess.PIPE, stderr=subprocess.STDOUT, text=True, timeout=60)
-        out[profile] = r.stdout.strip()
+        out[profile] = r.stdout.strip() if r.returncode >= 0 else "SIGNAL %d %s" % (-r.returncode, r.stdout.strip()[-200:].replace("\n", " | "))
     return out
 
 
@@ -448,13 +448,16 @@ def kernel_object_dispatch(task, bodies, enums, structs):
             name = z3.String("name")
             ip = z3.BitVec("ip", 32)
             S, T = z3.BitVec("S", 32), z3.BitVec("T", 32)
+            V0, U = z3.BitVec("V0", 32), z3.BitVec("U", 32)
             parent = b.pointer("P")
             # shape: the chain ends in null / an integer / a boolean / the array in heap cell #2
             b.constraints.append(z3.Or(b.syms["P"][0] != K_REF, b.syms["P"][3] == 2))
             consts = [Enum("ProgramObject", PO.index("String"), {PO.index("String"): [b.new(Str(name))]})]
             program = b.program(consts, CODE_LEN)
-            obj0 = b.object_cell(parent, [], [("m", b.po_method(0, 2, 1, BV(S, 32, False), 1))])
-            obj1 = b.object_cell(b.pointer_const(K_REF, 0), [], [("n", b.po_method(0, 2, 0, BV(T, 32, False), 1))])
+            # `v` is defined at both levels with different parameter counts: the receiver's own definition hides the inherited one,
+            # whatever the argument count of the call
+            obj0 = b.object_cell(parent, [], [("m", b.po_method(0, 2, 1, BV(S, 32, False), 1)), ("v", b.po_method(0, 2, 1, BV(V0, 32, False), 1))])
+            obj1 = b.object_cell(b.pointer_const(K_REF, 0), [], [("n", b.po_method(0, 2, 0, BV(T, 32, False), 1)), ("v", b.po_method(0, 3, 0, BV(U, 32, False), 1))])
             args = [b.pointer("a%d" % i) for i in range(nargs)]
             stack = [b.pointer("s0"), b.pointer_const(K_REF, recv)] + args
             arr2 = b.array_cell([b.pointer_const(K_INT, 10), b.pointer_const(K_INT, 20)])
@@ -469,11 +472,12 @@ def kernel_object_dispatch(task, bodies, enums, structs):
                 continue
             a_terms = [b.syms["a%d" % i] for i in range(nargs)]
             pk, pi, pb, _pr = b.syms["P"]
-            is_m, is_n = name == z3.StringVal("m"), name == z3.StringVal("n")
+            is_m, is_n, is_v = name == z3.StringVal("m"), name == z3.StringVal("n"), name == z3.StringVal("v")
             own = (is_n if recv == 1 else z3.BoolVal(False))           # defined by the receiver itself
+            own_v = (is_v if recv == 1 else z3.BoolVal(False))         # the receiver's own three-parameter `v` (hides the parent's two-parameter one)
             inherited = is_m if recv == 1 else z3.BoolVal(False)       # found in the parent
-            direct = is_m if recv == 0 else z3.BoolVal(False)
-            user = z3.Or(own, inherited, direct)
+            direct = z3.Or(is_m, is_v) if recv == 0 else z3.BoolVal(False)
+            user = z3.Or(own, own_v, inherited, direct)
             next_in = z3.ULT(z3.ZeroExt(32, ip) + 1, z3.BitVecVal(CODE_LEN, 64))
             # built-in reached at the end of the chain
             rows_int = c09.spec(K_INT, pi, name, a_terms[0])
@@ -489,7 +493,7 @@ def kernel_object_dispatch(task, bodies, enums, structs):
             arr_get = z3.And(z3.Not(user), pk == K_REF, name == z3.StringVal("get"), in_range) if nargs == 1 else z3.BoolVal(False)
             arr_set = z3.And(z3.Not(user), pk == K_REF, name == z3.StringVal("set"), in_range) if nargs == 2 else z3.BoolVal(False)
             prim_defined = z3.Or(prim_defined, arr_get, arr_set)
-            user_defined = z3.And(user, nargs == 1)
+            user_defined = z3.Or(z3.And(own_v, nargs == 2), z3.And(user, z3.Not(own_v), nargs == 1))
 
             def judge(o, recv=recv, nargs=nargs, a_terms=a_terms, state_cell=state_cell, b=b):
                 st = o.store
@@ -519,13 +523,14 @@ def kernel_object_dispatch(task, bodies, enums, structs):
                     # slot 0 is the receiver (the pinned code binds the defining object when the method is inherited; either is accepted)
                     conj.append(z3.And(slot0[0] == K_REF, z3.Or(slot0[3] == recv, z3.And(inherited, slot0[3] == 0))))
                     conj.append(same_pointer(pointer_terms(st, st[locals_.cells[1]]), a_terms[0]) if nloc >= 2 else z3.BoolVal(False))
-                    # "m" has one extra local (null), "n" none
-                    conj.append(z3.If(z3.Or(inherited, direct), z3.BoolVal(nloc == 3), z3.BoolVal(nloc == 2)))
+                    # "m" and the parent's "v" have one extra local (null), "n" none; the receiver's own "v" takes two arguments and has no local
+                    conj.append(z3.If(z3.Or(inherited, direct, own_v), z3.BoolVal(nloc == 3), z3.BoolVal(nloc == 2)))
                     if nloc == 3:
-                        conj.append(pointer_terms(st, st[locals_.cells[2]])[0] == K_NULL)
+                        third = pointer_terms(st, st[locals_.cells[2]])
+                        conj.append(z3.If(own_v, same_pointer(third, a_terms[1]) if nargs == 2 else z3.BoolVal(False), third[0] == K_NULL))
                     if not isinstance(ipv.disc, int) or ipv.disc != 1:
                         return z3.BoolVal(False), "Ok(call) but instruction pointer unset"
-                    conj.append(st[st[ipv.payload[1][0]].cells[0]].t == z3.If(own, T, S))
+                    conj.append(st[st[ipv.payload[1][0]].cells[0]].t == z3.If(own, T, z3.If(own_v, U, z3.If(is_v, V0, S))))
                     ra = field(st, top, structs["Frame"], "return_address")
                     if not isinstance(ra.disc, int):
                         return None, "return address with symbolic discriminant"
@@ -576,7 +581,9 @@ def kernel_object_dispatch(task, bodies, enums, structs):
 
 def expect_object_method(name, recv, parent, args):
     import c09_dispatch as c09
-    if (name == "n" and recv == 1) or name == "m":
+    if name == "v" and recv == 1:
+        return "CALL" if len(args) == 2 else "ERR"      # the receiver's own v/3 hides the parent's v/2
+    if (name == "n" and recv == 1) or name in ("m", "v"):
         return "CALL" if len(args) == 1 else "ERR"
     def val(p):
         if p == "null":
